@@ -10,7 +10,7 @@ of C05 is therefore **false** for histories with `Add` into deeper levels or int
 proved, for all histories and without bounds:
 
 * `C05_conservation` (+ the per-operation theorems `C05_*_conserves`): for every configuration with
-  `parent i < i`, `left i > i` and no sift-up in `pop` (`CfgSafe`), every comparison function, the
+  `parent i < i` (i > 0), `left i > i` (`CfgOK`) and every comparison function, the
   multiset of held elements is exactly what was put in minus what was taken out, and `Remove(i)` /
   `Pop` return what `Peek(i)` / `Peek(0)` showed.
 * `C05_establish`, `C05_pop_preserves`, `heap_root_min`, `C05_partial_order`: for the standard
@@ -27,14 +27,14 @@ open List (Perm)
 
 variable {α : Type} [Inhabited α]
 
-/-! ## 1. conservation (every `CfgSafe` configuration, every comparison) -/
+/-! ## 1. conservation (every `CfgOK` configuration, every comparison) -/
 section Conservation
-variable {cfg : Cfg} (hc : CfgSafe cfg) (lt : α → α → Bool)
+variable {cfg : Cfg} (hc : CfgOK cfg) (lt : α → α → Bool)
 include hc
 
 theorem C05_add_conserves (s : S α) (v : α) :
     (step cfg lt s (.add v)).1.h.data.Perm (v :: s.h.data) :=
-  add_perm hc.toCfgOK _ s.h v
+  add_perm hc _ s.h v
 
 /-- `Remove(i)`: out of range → `(zero, false)` and nothing changes; otherwise it returns the
 element `Peek(i)` showed, and that element plus what is left is what was there -/
@@ -44,8 +44,7 @@ theorem C05_remove_conserves (s : S α) (i : Nat) :
     | some v => (step cfg lt s (.remove i)).2 = .opt (some v) ∧
         (v :: (step cfg lt s (.remove i)).1.h.data).Perm s.h.data := by
   by_cases hi : i < s.h.len
-  · have hperm := pop_perm hc.toCfgOK (s.lt lt) s.h i hi (fun e => by
-      rw [hc.noSiftUp] at e; exact absurd e (by decide))
+  · have hperm := pop_perm hc (s.lt lt) s.h i hi
     have hout := pop_out cfg (s.lt lt) s.h i
     rw [hout] at hperm
     rw [get_eq _ _ hi] at hout hperm
@@ -206,18 +205,18 @@ theorem C05_establish (s : S α) :
   · let s' : S α := { h := { data := [], log := s.h.log }, rev := rev }
     show HeapOK (s'.lt lt) (newWithData cfg (s'.lt lt) vs).data
     rw [heapOK_iff]
-    exact heapify_heap hs (orderOK_dir ho s') _ _ (hs.start_ge _)
+    exact heapify_heap hs.toCfgLayout (orderOK_dir ho s') _ _ (hs.start_ge _)
   · show HeapOK (s.lt lt) (Model.Heapq.set cfg (s.lt lt) s.h vs).data
     rw [heapOK_iff]
     simp only [Model.Heapq.set]
     split
     · rename_i e; intro k _ c _ hcl; simp [H.len, e] at hcl
     · rename_i n e
-      exact setLoop_heap hs (orderOK_dir ho s) _ n (by simp [H.len, e])
+      exact setLoop_heap hs.toCfgLayout (orderOK_dir ho s) _ n (by simp [H.len, e])
   · let s' : S α := { s with rev := rev }
     show HeapOK (s'.lt lt) (reorder cfg (s'.lt lt) s'.h).data
     rw [heapOK_iff]
-    exact heapify_heap hs (orderOK_dir ho s') _ _ (hs.start_ge _)
+    exact heapify_heap hs.toCfgLayout (orderOK_dir ho s') _ _ (hs.start_ge _)
   · show HeapOK _ ([] : List α)
     intro i; exact ⟨fun h => absurd h (by simp), fun h => absurd h (by simp)⟩
 
@@ -413,10 +412,9 @@ theorem ltKey_order : OrderOK Drv.C05.ltKey where
   le_trans := fun a b c => by
     simp only [le, Drv.C05.ltKey, Bool.not_eq_true', decide_eq_false_iff_not]; omega
 
-theorem pinned_safe : CfgSafe pinned where
+theorem pinned_ok : CfgOK pinned where
   parent_lt := fun i hi => by simp only [pinned]; omega
   left_gt := fun i => by simp only [pinned]; omega
-  noSiftUp := rfl
 
 theorem pinned_std : CfgStd pinned where
   left_eq := fun _ => rfl
@@ -439,7 +437,7 @@ theorem cfg_eq_pinned : Drv.C05.cfg = pinned := by
   simp only [Drv.C05.cfg, pinned, Cfg.mk.injEq]
   exact ⟨funext h1, funext h2, funext h3, funext h4, h5⟩
 
-theorem current_safe : CfgSafe Drv.C05.cfg := cfg_eq_pinned ▸ pinned_safe
+theorem current_ok : CfgOK Drv.C05.cfg := cfg_eq_pinned ▸ pinned_ok
 theorem current_std : CfgStd Drv.C05.cfg := cfg_eq_pinned ▸ pinned_std
 
 section Current
@@ -447,7 +445,7 @@ variable [DecidableEq α]
 
 theorem C05_conservation_current (lt : α → α → Bool) (ops : List (Op α)) :
     (runHeld Drv.C05.cfg lt ({} : S α) [] ops).1.h.data.Perm (runHeld Drv.C05.cfg lt ({} : S α) [] ops).2 :=
-  C05_conservation current_safe lt ops {} [] (Perm.refl _)
+  C05_conservation current_ok lt ops {} [] (Perm.refl _)
 
 end Current
 
